@@ -64,7 +64,9 @@ _constructor.__name__ = "constructor_block"
 
 def build(tier, seed):
     set_tier(tier)
-    tasks = [a_task(PROP, display.should_display), a_task(PROP, display.filter_display2),
+    tasks = [standin_task(PROP, "projects.hide_undoc_export", lambda: __import__("bounded.c16", fromlist=["x"]).search(("hide_undoc",)), "ford.main on project A (externalize, hide_undoc) then project B",
+                          "entities that the display options of A exclude are exported without an address: B has no link to a page that A did not write", "1 project pair"),
+             a_task(PROP, display.should_display), a_task(PROP, display.filter_display2),
              a_task(PROP, _with_search(display.prune_codeunit)), a_task(PROP, _with_search(display.prune_type)),
              a_task(PROP, _with_search(display.prune_blockdata)), a_task(PROP, display.str_method), a_task(PROP, display.basenode_url_block),
              a_task(PROP, display.set_display),
